@@ -8,7 +8,8 @@ namespace NV.C10
 theorem toPend_coCall (w : World) (o f : Nat) (tag : String) (delay : Int) (fp : Bool) :
     toPend (coCall w o f tag delay fp) =
       { owner := o, fn := f, tag := tag, due := vnow w + (if delay < 1 then 1 else delay),
-        handle := ((coSlot w delay + N * (w.unique + 1) : Nat) : Int), fp := fp } := by
+        handle := ((coSlot w delay + N * (w.unique + 1) : Nat) : Int), fp := fp,
+        giver := liveGiver w w.giver } := by
   unfold toPend coCall coDue coD vnow
   simp only [Pend.mk.injEq, true_and, and_true]
   omega
@@ -20,7 +21,7 @@ theorem sim_co {tick : Bool} {w : World} {j : JState} (_hw : WheelInv w) (h : Si
     (self fn : Nat) (delay : Int) (tag : String) (fp : Bool) (halive : isDead w self = false) :
     SimJ tick { (newCallOut w self fn tag delay fp).1 with
                 hmap := ((self, tag), (newCallOut w self fn tag delay fp).2) :: (newCallOut w self fn tag delay fp).1.hmap }
-      (judgeStep j (.co (vnow w) self fn delay tag ((newCallOut w self fn tag delay fp).2 : Int) fp)) := by
+      (judgeStep j (.co (vnow w) self fn delay tag ((newCallOut w self fn tag delay fp).2 : Int) fp (liveGiver w w.giver))) := by
   rw [newCallOut_snd]
   have key : ∀ c, InWheel (newCallOut w self fn tag delay fp).1 c ↔ (c = coCall w self fn tag delay fp ∨ InWheel w c) :=
     inWheel_newCallOut self fn tag delay fp
@@ -36,7 +37,8 @@ theorem sim_co {tick : Bool} {w : World} {j : JState} (_hw : WheelInv w) (h : Si
     | true =>
       have := h.allLt _ (List.contains_iff_mem.1 hc)
       omega
-  have hj : judgeStep j (.co (vnow w) self fn delay tag ((coSlot w delay + N * (w.unique + 1) : Nat) : Int) fp) =
+  have hj : judgeStep j (.co (vnow w) self fn delay tag ((coSlot w delay + N * (w.unique + 1) : Nat) : Int) fp
+      (liveGiver w w.giver)) =
       { j with pend := toPend (coCall w self fn tag delay fp) :: j.pend,
                handles := ((self, tag), ((coSlot w delay + N * (w.unique + 1) : Nat) : Int)) :: j.handles,
                allHandles := ((coSlot w delay + N * (w.unique + 1) : Nat) : Int) :: j.allHandles } := by
